@@ -104,7 +104,7 @@ func genC02(env *core.Env, emit func(core.Case)) {
 		key := gen.NewKey(r, uint8(r.IntN(256)), "public.example", gen.AllSuites)
 		suite := gen.AllSuites[r.IntN(3)]
 		o := gen.PlanOpts{NOuterOpaque: 1 + r.IntN(3), NInnerOpaque: r.IntN(3), MaxExtLen: 24, Padding: r.IntN(16), SIDLen: []int{0, 32}[r.IntN(2)], RefMask: uint64(r.IntN(8)), MarkerPos: r.IntN(4),
-			InnerName: hostName(r), ALPN: alpnList(r), PublicName: "public.example"}
+			InnerName: hostName(r), ALPN: alpnList(r), PublicName: "public.example", OuterPad: []int{0, 0, 17, 64}[r.IntN(4)]}
 		plan := gen.Plan(r, o)
 		pt := plan.Enc.Body()
 		sealed := gen.Seal(plan.OuterBase, r.IntN(len(plan.OuterBase.Exts)+1), key, suite, pt, nil, 0x0301)
